@@ -2,6 +2,7 @@ CONSTANTS
   MaxOps = 4
   MaxReq = 3
   TwoStep = FALSE
+  Exotic = FALSE
   Hold = FALSE
   Free = FALSE
 SPECIFICATION Spec
